@@ -44,6 +44,10 @@ def tasks(tier, seed):
         for L in (1, 2) if q else (1, 2, 3):
             ts.append(dict(name=f'{op}_L{L}_symq', op=op, L=L, d=2, Dmax=(2 if L < 3 and op in ('add_mps',) else 1) if op != 'add_mps' or L == 3 else 2,
                            qmode='sym', cplx=False, cut=8, fixprof=True))
+    # the very same object on both sides: psi + psi, psi - psi, op @ op
+    for op in ('add_mps', 'add_mpo', 'multiply_mpo'):
+        for L in (1, 2):
+            ts.append(dict(name=f'{op}_L{L}_same', op=op, L=L, d=2, Dmax=2, qmode='zero', cplx=False, cut=3, same=True))
     for L in (1, 2, 3):
         ts.append(dict(name=f'identity_L{L}', op='identity', L=L, d=2, qmode='sym', cplx=False))
     ts.append(dict(name='identity_L2_d3', op='identity', L=2, d=3, qmode='sym', cplx=False))
@@ -62,7 +66,7 @@ def tasks(tier, seed):
 
 
 def required_marks(tier):
-    return ['L1_single_site', 'L2_no_intermediate', 'bond_dim_1', 'distinct_profiles', 'sparse_layout_nontrivial', 'svd_contract_used',
+    return ['same_object_operands', 'L1_single_site', 'L2_no_intermediate', 'bond_dim_1', 'distinct_profiles', 'sparse_layout_nontrivial', 'svd_contract_used',
             'complex_entries']
 
 
@@ -116,6 +120,8 @@ def path(eng, acc, task):
         if op in ('add_mps', 'add_mpo'):
             kind = 'mps' if op == 'add_mps' else 'mpo'
             x0, x1 = operands(eng, task, [kind, kind])
+            if task.get('same'):
+                x1 = x0; inputs['same'] = True; eng.mark('same_object_operands')
             alpha = eng.csym('alpha') if task['cplx'] else eng.sym('alpha')
             mode = eng.choose(3, 'form')       # +, -, explicit alpha
             inputs.update(x0=tn.mps_json(x0), x1=tn.mps_json(x1), alpha=alpha, form=mode)
@@ -138,6 +144,8 @@ def path(eng, acc, task):
             fails += aliasing_fails(res, [x0, x1], snap)
         elif op == 'multiply_mpo':
             x0, x1 = operands(eng, task, ['mpo', 'mpo'])
+            if task.get('same'):
+                x1 = x0; inputs['same'] = True; eng.mark('same_object_operands')
             inputs.update(x0=tn.mps_json(x0), x1=tn.mps_json(x1))
             snap = snapshot(x0.A + x1.A + [x0.qd, x1.qd] + x0.qD + x1.qD)
             res = x0 @ x1
